@@ -1547,9 +1547,19 @@ impl StreamingQueueCompressor {
         // Register contig in collection
         {
             let mut collection = self.collection.lock().unwrap();
-            collection
+            let is_new = collection
                 .register_sample_contig(&sample_name, &contig_name)
                 .context("Failed to register contig")?;
+            // A second contig with the same name in the same sample would be placed over the
+            // first one's segment table (the catalogue is keyed by name): refuse it instead
+            // of writing an archive in which one record is lost and the other garbled.
+            if !is_new {
+                anyhow::bail!(
+                    "Duplicate contig name '{}' in sample '{}'",
+                    contig_name,
+                    sample_name
+                );
+            }
         }
 
         // Set first sample as reference (multi-file mode)
